@@ -17,7 +17,8 @@ def lib_part(run):
         tlc_must_pass(r, "Merge.tla simulation (%s)" % cfg)
         run.add_tlc("simulate_" + cfg[:-4], r)
         beh += r.replays
-    cases = [dict(b, mode="many") for b in beh]
+    # every value multiplied by 2^vexp (exactly): ordinary magnitudes, 2^-70 (about 8e-22) and 2^60
+    cases = [dict(b, mode="many", vexp=[0, 0, -70, 60][k % 4]) for k, b in enumerate(beh)]
     r = tlc("MC_MergeSmall", "MC_MergeSmall.cfg", os.path.join(run.wd, "mc_small"), workers=6, timeout=3000, xmx="8g")
     tlc_must_pass(r, "MC_MergeSmall")
     run.add_tlc("merge_into_and_fill_inputs", r)
